@@ -3,6 +3,7 @@
 From Coq Require Import List NArith ZArith Bool Arith.
 From RecordUpdate Require Import RecordUpdate.
 From JV Require Import Bytes Msg SrvModel SrvLemmas SrvC09 SrvC10.
+From JV Require SrvNoCrash.
 Import ListNotations.
 
 (* 1. the push gate: without AllowPush nothing is transmitted and nothing changes; after the
@@ -89,11 +90,11 @@ Print Assumptions c09_late_reply_stable.
 (* 6. the reader is enabled whatever the dispatcher does, and a matching reply completes its
       callback in the very window in which it is read *)
 Theorem c09_reply_passes_barrier : forall c s f ms m i cb0,
-  reach c s -> crash s = None -> running s = true -> rd s = RHold f -> msgs_feed f ms ->
+  reach c s -> running s = true -> rd s = RHold f -> msgs_feed f ms ->
   In m ms -> is_req_or_notif m = false -> assoc (fix_id (j_id m)) (calls s) = Some i -> nth_error (cbs s) i = Some cb0 ->
   exists s' os, step s LRelRead = Some (s', os) /\
     assoc (fix_id (j_id m)) (calls s') = None /\ exists r, In (ORet (cb_op cb0) r) os /\ is_completion r = true.
-Proof. exact reply_passes_barrier. Qed.
+Proof. exact SrvNoCrash.c09_reply_passes_barrier_nc. Qed.
 Print Assumptions c09_reply_passes_barrier.
 
 Theorem c09_reader_never_blocked : forall s f, crash s = None -> rd s = RHold f -> exists s' os, step s LRelRead = Some (s', os).
@@ -123,10 +124,10 @@ Print Assumptions c09_done_not_registered.
 (* quiescent completeness: a callback still outstanding in a quiescent state has a live context
    and a running server; so context end and Stop have both led to its completion *)
 Theorem c09_quiescent_complete : forall c s k i,
-  reach c s -> crash s = None -> quiescent s = true -> In (k, i) (calls s) ->
+  reach c s -> quiescent s = true -> In (k, i) (calls s) ->
   exists cb0, nth_error (cbs s) i = Some cb0 /\ cb_id cb0 = k /\
     cb_ctx cb0 = None /\ cb_cancelled cb0 = false /\ running s = true.
-Proof. exact quiescent_complete. Qed.
+Proof. exact SrvNoCrash.c09_quiescent_complete_nc. Qed.
 Print Assumptions c09_quiescent_complete.
 
 Theorem c09_stopped_callbacks_cancelled : forall c s k i,
